@@ -9,6 +9,7 @@ from scipy.spatial import Delaunay
 import shapely
 import shapely.geometry as sg
 from shapely.ops import unary_union, polygonize
+from shapely.validation import make_valid
 
 from pero_ocr.core.layout import TextLine
 
@@ -324,8 +325,15 @@ def mask_textline_by_region(baseline, textline, region):
         print('Invalid textline encountered, replacing it with convex hull...')
         textline_shpl = textline_shpl.convex_hull
     if not region_shpl.is_valid:
-        warnings.warn("Input region contains self-intersections, replacing it with convex hull...")
-        region_shpl = region_shpl.convex_hull
+        # repair the outline without growing the region (a ring that only touches itself keeps its exact area);
+        # the convex hull stays the fallback when the repaired geometry is not polygonal
+        repaired = make_valid(region_shpl)
+        if isinstance(repaired, (sg.Polygon, sg.MultiPolygon)) and not repaired.is_empty:
+            warnings.warn("Input region contains self-intersections, repairing it...")
+            region_shpl = repaired
+        else:
+            warnings.warn("Input region contains self-intersections, replacing it with convex hull...")
+            region_shpl = region_shpl.convex_hull
     baseline_is = region_shpl.intersection(baseline_shpl)
     textline_is = region_shpl.intersection(textline_shpl)
 
